@@ -246,9 +246,52 @@ func genSmtFacts() (string, error) {
 		}
 		return true
 	})
+	// validNodeValue: hash-sized, or 20 bytes for EXACTLY the two reserved leaf keys (byte equality, not a prefix test)
+	valueRuleExact := false
+	if vv := smtFindFunc(smt, "SMT", "validNodeValue"); vv != nil && len(vv.Body.List) == 2 {
+		nrm := func(e ast.Expr) string { return strings.ReplaceAll(g.ExprText(e), " ", "") }
+		first, second := false, false
+		if ifs, ok := vv.Body.List[0].(*ast.IfStmt); ok && nrm(ifs.Cond) == "len(n.Value)==crypto.HashSize" && len(ifs.Body.List) == 1 {
+			if r, ok := ifs.Body.List[0].(*ast.ReturnStmt); ok && len(r.Results) == 1 && nrm(r.Results[0]) == "true" {
+				first = true
+			}
+		}
+		if r, ok := vv.Body.List[1].(*ast.ReturnStmt); ok && len(r.Results) == 1 &&
+			nrm(r.Results[0]) == "len(n.Value)==20&&(bytes.Equal(n.Key,s.minKey.bytes())||bytes.Equal(n.Key,s.maxKey.bytes()))" {
+			second = true
+		}
+		valueRuleExact = first && second
+	}
+	fmt.Fprintf(&b, "/-- `validNodeValue`: `if len(n.Value) == crypto.HashSize { return true }` then\n`return len(n.Value) == 20 && (bytes.Equal(n.Key, s.minKey.bytes()) || bytes.Equal(n.Key, s.maxKey.bytes()))` -/\ndef validNodeValueExactReservedKeys : Bool := %v\n", valueRuleExact)
 	fmt.Fprintf(&b, "/-- `validNodeKey`: `if size < 2 { return false }`, `lastBits := leftPadding + max(bits.Len8(last), 1)`,\n`return lastBits <= 8 && (size-2)*8+lastBits <= maxBits` — the TOTAL number of key bits is bounded by the tree's key length -/\ndef validNodeKeyBoundsTotalBits : Bool := %v\n", boundOK)
 	fmt.Fprintf(&b, "/-- `VerifyProof` also checks the length of every proof node's value (`validNodeValue`) -/\ndef verifyProofChecksValueLength : Bool := %v\n", valueLen)
 	fmt.Fprintf(&b, "def rootWritesPrefix : Bytes := %s\ndef readOnlyReadsPrefix : Bytes := %s\n", g.BytesLit(prefixes[w]), g.BytesLit(prefixes[r]))
+	// valueOpToSMTNode: the leaf of a set commits to crypto.Hash(value) of the key crypto.Hash(key), whatever the value is
+	hashesAlways := false
+	if vo := smtFindFunc(smt, "SMT", "valueOpToSMTNode"); vo != nil {
+		valueAssigns, good, keyOK := 0, 0, false
+		ast.Inspect(vo.Body, func(n ast.Node) bool {
+			switch x := n.(type) {
+			case *ast.AssignStmt:
+				for i, l := range x.Lhs {
+					lt := strings.ReplaceAll(g.ExprText(l), " ", "")
+					if lt == "n.Node.Value" || lt == "n.Value" {
+						valueAssigns++
+						if i < len(x.Rhs) && strings.ReplaceAll(g.ExprText(x.Rhs[i]), " ", "") == "crypto.Hash(operation.value)" {
+							good++
+						}
+					}
+				}
+			case *ast.CallExpr:
+				if strings.ReplaceAll(g.ExprText(x), " ", "") == "newNodeKey(crypto.Hash(operation.key),s.keyBitLength)" {
+					keyOK = true
+				}
+			}
+			return true
+		})
+		hashesAlways = valueAssigns == 1 && good == 1 && keyOK
+	}
+	fmt.Fprintf(&b, "/-- `valueOpToSMTNode`: the only assignment to the leaf value is `crypto.Hash(operation.value)`, the key is `newNodeKey(crypto.Hash(operation.key), s.keyBitLength)` -/\ndef leafCommitsToHashOfValue : Bool := %v\n", hashesAlways)
 	// Store.Copy(): which fields of the clone are taken over from the source store as they are (shared objects)?
 	cpFd := smtFindFunc(st, "Store", "Copy")
 	if cpFd == nil {
